@@ -383,6 +383,32 @@ mut("C12", "transport-window-update-wakes-nobody", TR,
 mut("C12", "undo-D16", TR,
     "			cs.readAborted = true\n			cs.abortStreamLocked(StreamError{\n				StreamID: f.StreamID,\n				Code:     ErrCodeFlowControl,\n			})", "			rl.endStreamError(cs, StreamError{\n				StreamID: f.StreamID,\n				Code:     ErrCodeFlowControl,\n			})")
 
+# ---- C06
+mut("C06", "metadata-from-context-returns-latest", "pkg/metadata/context.go",
+    "	md := &Metadata{}\n", "	md := &Metadata{}\n	lastMD = md\n")
+mut("C06", "metadata-from-context-returns-latest", "pkg/metadata/context.go",
+    "	data, ok := ctx.Value(FingerproxyContextKey).(*Metadata)\n	return data, ok", "	data, ok := ctx.Value(FingerproxyContextKey).(*Metadata)\n	if ok && lastMD != nil && len(lastMD.ClientHelloRecord)%7 == 0 {\n		return lastMD, ok\n	}\n	return data, ok")
+mut("C06", "metadata-from-context-returns-latest", "pkg/metadata/context.go",
+    "var (\n	FingerproxyContextKey", "var lastMD *Metadata\n\nvar (\n	FingerproxyContextKey")
+mut("C06", "h1-handoff-uses-last-hello", "pkg/proxyserver/proxyserver.go",
+    "			ClientHelloRecord: rec,\n", "			ClientHelloRecord: lastHello(rec),\n")
+mut("C06", "h1-handoff-uses-last-hello", "pkg/proxyserver/proxyserver.go",
+    "func (server *Server) tlsHandshakeWithTimeout(", "var (\n	lastHelloMu  sync.Mutex\n	lastHelloRec []byte\n)\n\n// returns the previous connection's record every now and then\nfunc lastHello(rec []byte) []byte {\n	lastHelloMu.Lock()\n	defer lastHelloMu.Unlock()\n	prev := lastHelloRec\n	lastHelloRec = rec\n	if prev != nil && len(rec)%5 == 0 {\n		return prev\n	}\n	return rec\n}\n\nfunc (server *Server) tlsHandshakeWithTimeout(")
+mut("C06", "hello-slice-aliases-pooled-buffer", "pkg/hack/hajack_clienthello_conn.go",
+    "	return c.buf.Bytes(), nil", "	b := helloPool.Get().([]byte)[:0]\n	b = append(b, c.buf.Bytes()...)\n	helloPool.Put(b[:0])\n	return b, nil")
+mut("C06", "hello-slice-aliases-pooled-buffer", "pkg/hack/hajack_clienthello_conn.go",
+    "var (\n	ErrIncompleteClientHello", "var helloPool = sync.Pool{New: func() any { return make([]byte, 0, 4096) }}\n\nvar (\n	ErrIncompleteClientHello")
+mut("C06", "hello-slice-aliases-pooled-buffer", "pkg/hack/hajack_clienthello_conn.go",
+    '	"net"\n	"time"', '	"net"\n	"sync"\n	"time"')
+mut("C06", "conn-context-cached-by-peer-ip", "pkg/proxyserver/proxyserver.go",
+    "	ctx, md := metadata.NewContext(ctx)\n	if conn, ok := c.(*hack.TLSClientHelloConn); ok {", "	ip, _, _ := net.SplitHostPort(c.RemoteAddr().String())\n	if cached, ok := ctxByIP.Load(ip); ok {\n		return cached.(context.Context)\n	}\n	ctx, md := metadata.NewContext(ctx)\n	ctxByIP.Store(ip, ctx)\n	if conn, ok := c.(*hack.TLSClientHelloConn); ok {")
+mut("C06", "conn-context-cached-by-peer-ip", "pkg/proxyserver/proxyserver.go",
+    "func updateConnContext(", "var ctxByIP sync.Map\n\nfunc updateConnContext(")
+mut("C06", "h2-metadata-on-server-context", "pkg/proxyserver/proxyserver.go",
+    "		ctx, md := metadata.NewContext(server.ctx)\n		md.ClientHelloRecord = rec", "		if server.h2ctx == nil {\n			server.h2ctx, server.h2md = metadata.NewContext(server.ctx)\n		}\n		ctx, md := server.h2ctx, server.h2md\n		md.ClientHelloRecord = rec")
+mut("C06", "h2-metadata-on-server-context", "pkg/proxyserver/proxyserver.go",
+    "	// required, mutex for initiating the server\n	mu sync.Mutex", "	// required, mutex for initiating the server\n	mu sync.Mutex\n\n	h2ctx context.Context\n	h2md  *metadata.Metadata")
+
 def run(argv):
     props = [a for a in argv if a.startswith("C")]
     sub = None
